@@ -46,3 +46,16 @@ package service
 //@ func (*packageParse).unpack
 //@   ensures C09.data: forall(j, 0, len(msgs), disjoint(msgs[j].ExtensionFields.TerminalData, data) && disjoint(msgs[j].JTMessage.Body, data))
 //@   ensures C09.hist: forall(j, 0, len(msgs), disjoint(msgs[j].ExtensionFields.TerminalData, p.historyData) && disjoint(msgs[j].JTMessage.Body, p.historyData))
+//@   loop 1 invariant C09.data: forall(j, 0, len(msgs), msgs[j] != nil && msgs[j].JTMessage != nil && disjoint(msgs[j].ExtensionFields.TerminalData, data) && disjoint(msgs[j].JTMessage.Body, data))
+//@   loop 1 invariant C09.hist: forall(j, 0, len(msgs), disjoint(msgs[j].ExtensionFields.TerminalData, p.historyData) && disjoint(msgs[j].JTMessage.Body, p.historyData))
+//@   loop 1 invariant C09.msgs: msgs == nil || fresh(msgs)
+//@   loop 1 decreases len(p.historyData)
+
+//@ func newTerminalMessage
+//@   mode contract
+//@   modifies nothing
+//@   ensures fresh: result != nil && fresh(result)
+//@   ensures msg: result.JTMessage == jtMsg
+//@   ensures data: result.ExtensionFields.TerminalData == terminalData
+//@   ensures seq: result.ExtensionFields.TerminalSeq == jtMsg.Header.SerialNumber && result.Command == jtMsg.Header.ID
+//@   ensures flags: !result.ExtensionFields.SubcontractComplete && !result.ExtensionFields.ActiveSend
